@@ -102,7 +102,17 @@ def evaluate(case, out):
                 if any(cvrs[i].pool and np.isnan(means.get(cvrs[i].tally_pool, 0.0)) for i in pop):
                     out.skip("nan-pool-mean")
                     continue
-                B = [a.overstatement_assorter(mvrs[i], cvrs[i], use_style=us) for i in pop]
+                if len(cvrs) % 3 == 0:
+                    # the Contest object's own use_style attribute (True unless the caller sets it) need not agree with the
+                    # stratum's: what is passed to overstatement_assorter decides
+                    keep_us = con.use_style
+                    con.use_style = not us
+                    feats.add("contest.use_style!=argument")
+                try:
+                    B = [a.overstatement_assorter(mvrs[i], cvrs[i], use_style=us) for i in pop]
+                finally:
+                    if len(cvrs) % 3 == 0:
+                        con.use_style = keep_us
                 A = []
                 for i in pop:
                     m = mvrs[i]
